@@ -65,7 +65,7 @@ CLAIMED = {
          'Generated graphs x schedules in which scripts stay running as long as possible.',
          'One-shot runs without failures.', 'DESIGN.md 4/C17'),
 }
-ENGINE = {'C15':'INC','C16':'INC+BB','C05':'BB+FUZZ','C18':'BB','C20':'SIM+BB','C02':'INC','C03':'INC','C09':'INC','C13':'INC','C14':'INC+FUZZ','C15':'INC','C19':'INC','C10':'BB','C12':'BB','C04':'SIM+BB','C01':'SIM+BB','C07':'SIM+BB','C08':'SIM+BB','C11':'SIM+BB','C17':'SIM+BB'}
+ENGINE = {'C01':'SIM+BB','C02':'INC+BB','C03':'INC+BB','C04':'SIM+BB','C05':'BB+FUZZ','C06':'SIM+BB','C07':'SIM+BB','C08':'SIM+BB','C09':'INC+BB','C10':'BB','C11':'SIM+BB','C12':'BB','C13':'INC+BB','C14':'INC+BB+FUZZ','C15':'INC','C16':'INC+BB','C17':'SIM+BB','C18':'BB','C19':'INC+BB','C20':'SIM+BB'}
 ALL = [json.loads(l)['id'] for l in open('/verif/properties.jsonl')]
 NA_REASON = 'check not built yet in this session (work in progress; to be decided with property-based testing as designed in DESIGN.md)'
 
@@ -82,7 +82,7 @@ def main():
         'add_only': True,
       },
       'engines': [
-        {'name': 'BB', 'path': 'harness/incrate/verif/bb.rs', 'serves_properties': ['C01','C04','C07','C08','C10','C11','C12','C17'], 'kind_free_text': 'the real binary (repo main()) on generated projects; trace files, /proc scans, snapshots; cases generated and shrunk by proptest'},
+        {'name': 'BB', 'path': 'harness/incrate/verif/bb.rs', 'serves_properties': ['C01','C02','C03','C04','C05','C06','C07','C08','C09','C10','C11','C12','C13','C14','C16','C17','C18','C19','C20'], 'kind_free_text': 'the real binary (repo main()) on generated projects; trace files, /proc scans, snapshots; cases generated and shrunk by proptest'},
         {'name': 'INC', 'path': 'harness/incrate/verif/inc_incr.rs', 'serves_properties': ['C02','C03','C09','C13','C14','C15','C19'], 'kind_free_text': 'real functions called in-crate (loader, resolver, lister, incremental::run) on generated scratch trees; proptest generation and shrinking'},
         {'name': 'FUZZ', 'path': 'harness/fuzz', 'serves_properties': ['C05','C14'], 'kind_free_text': 'cargo-fuzz / libFuzzer targets (stable toolchain, -s none) calling the loader and the state-file reader in-process with the oracle inside the target'},
         {'name': 'SIM', 'path': 'harness/incrate/verif/sim.rs', 'serves_properties': ['C01','C04','C06','C07','C08','C11','C17','C20'], 'kind_free_text': 'real actor code polled by a single-threaded executor; virtual processes; generated schedules (proptest)'},
